@@ -254,7 +254,7 @@ def units(tier):
     for n in list(c05.INFIX_NAMES) + list(c05.PREFIX_NAMES):
         us.append(("resolve-twice[%s]" % n, "unit_resolve_twice", dict(opname=n)))
     for ctxt in ("file", "repeat"):
-        us.append(("compile_block[%s]" % ctxt, "unit_compile_block", dict(context=ctxt, base_settled=True, start_kind="poly")))
+        us.append(("compile_block[%s]" % ctxt, "unit_compile_block", dict(context=ctxt, base_settled=True, start_kind="poly", end_scope=True)))
     for cmd in (".end", ".once"):
         us.append(("zero[%s]" % cmd, "unit_zero_size", dict(cmd=cmd, nops=0)))
     for n in (2, 3):
@@ -285,11 +285,22 @@ def _pairs(tree, pairs):
 
 def replay(o, tree):
     cfg = o.get("cfg") or {}
+    if "a-.end-inside-a-repeat-body" in o.get("label", ""):
+        jobs, out = _pairs(tree, D40_PAIRS)
+        return dict(jobs=jobs, expected="'.end' inside a repeat body discards the rest of the file", observed=out, reproduced=bool(out))
     if cfg.get("kind") == "resolve-twice":
         jobs, out = _pairs(tree, D3_PAIRS)
         return dict(jobs=jobs, expected="'.repeat n { body }' == body written n times", observed=out, reproduced=bool(out))
     jobs, out = _pairs(tree, PAIRS)
     return dict(jobs=jobs, expected="'.repeat n { body }' == body written n times", observed=out, reproduced=bool(out))
+
+
+D40_PAIRS = [(".repeat 2 { .word 1\n.end\n.word 2 }\n.word 3\n", ".word 1\n")]
+
+
+def witness_D40(tree):
+    jobs, out = _pairs(tree, D40_PAIRS)
+    return bool(out), "'.repeat 2 { .word 1 / .end / .word 2 }' / '.word 3' vs '.word 1': %s" % (out[:1],)
 
 
 def witness_D3(tree):
@@ -302,4 +313,4 @@ def witness_D4(tree):
     return bool(out), "repeat vs unrolled: %s" % (out[:1],)
 
 
-FINDING_WITNESS = {"D3": witness_D3, "D4": witness_D4}
+FINDING_WITNESS = {"D3": witness_D3, "D4": witness_D4, "D40": witness_D40}
